@@ -369,6 +369,28 @@ def write_journal(img_path, absj, tblk, first=1, uuid=None, uuid_mode="first", j
     return dict(jsb_block=jmap[0], jmap=jmap[:maxlen], bs=im.bs, first=first)
 
 
+def restart_journal(img_path, absj2, tblk, first=1, uuid=None, uuid_mode="first", junk_mode="zero"):
+    """Second life of the log on an image whose journal was replayed (spec/Jbd2Gen.tla Restart): only the ring positions
+    in absj2["written"] are encoded and written; every other log block, and every field of the journal superblock except
+    s_sequence / s_start (and its checksum), stays as the front-end left it.  needs_recovery is set."""
+    im = Image(img_path)
+    cfg = absj2["cfg"]
+    uuid = uuid or bytes(range(0x10, 0x20))
+    enc = Encoder(cfg, im.bs, uuid, tblk, uuid_mode, junk_mode)
+    jmap = im.journal_map()
+    for p in absj2["written"]:
+        im.wr(jmap[first + p - 1], enc.block(absj2["log"][p - 1], p))
+    b = bytearray(im.rd(jmap[0]))
+    start = absj2["jsb"]["start"]
+    struct.pack_into(">II", b, 24, absj2["jsb"]["seq"] & 0xFFFFFFFF, 0 if start == 0 else first + start - 1)
+    if struct.unpack_from(">I", b, 40)[0] & (INCOMPAT_CSUM2 | INCOMPAT_CSUM3):
+        struct.pack_into(">I", b, 0xFC, 0)
+        struct.pack_into(">I", b, 0xFC, crc32c_raw(0xFFFFFFFF, bytes(b[:1024])))
+    im.wr(jmap[0], bytes(b))
+    im.set_needs_recovery(1)
+    return dict(jsb_block=jmap[0], bs=im.bs, first=first)
+
+
 def read_jsb(img_path, jsb_block=None):
     im = Image(img_path)
     if jsb_block is None:
